@@ -1,6 +1,12 @@
 """The generated type corpus (program dimension), by family."""
 from schema import *
 
+TIER = 'quick'   # set by gen.py --tier; thorough raises the shape bounds of the small families
+
+def tparams(kind, **th):
+    """per-job bound overrides used only in the thorough tier"""
+    return {kind: [th]} if TIER == 'thorough' else {}
+
 S = lambda k: (k,)
 
 def leaf(name='Leaf', init=False):
@@ -25,10 +31,10 @@ def fam_scalar():
         else:
             fs.append(Field(3, 'optional', S(k), ptr=True))
             fs.append(Field(4, 'optional', S(k)))
-        out.append(StructDef('ScA_' + k, fs))
+        out.append({'sd': StructDef('ScA_' + k, fs), 'kinds': ['codec'], 'params': tparams('codec', S=4)})
         fd = [Field(1, 'default', S(k), default=DEFAULT_LIT[k]), Field(2, 'optional', S(k), default=DEFAULT_LIT[k]),
               Field(3, 'optional', S(k)), Field(4, 'required', S(k))]
-        out.append(StructDef('ScD_' + k, fd, has_init=True))
+        out.append({'sd': StructDef('ScD_' + k, fd, has_init=True), 'kinds': ['codec'], 'params': tparams('codec', S=3)})
     return out
 
 ELEMS = [S(k) for k in SCALARS] + [('struct', LEAF, True), ('struct', LEAF, False), ('list', S('i32')),
@@ -38,8 +44,8 @@ ELEM_NAMES = SCALARS + ['pstruct', 'vstruct', 'list_i32', 'set_string', 'map_str
 def fam_list():
     out = []
     for e, n in zip(ELEMS, ELEM_NAMES):
-        out.append(StructDef('Li_' + n, [Field(1, 'default', ('list', e))]))
-        out.append(StructDef('Se_' + n, [Field(2, 'optional', ('set', e))]))
+        out.append({'sd': StructDef('Li_' + n, [Field(1, 'default', ('list', e))]), 'kinds': ['codec'], 'params': tparams('codec', S=2, L=3, M=2)})
+        out.append({'sd': StructDef('Se_' + n, [Field(2, 'optional', ('set', e))]), 'kinds': ['codec'], 'params': tparams('codec', S=2, L=3, M=2)})
     return out
 
 KEYS = [S(k) for k in ['bool', 'i8', 'i16', 'i32', 'i64', 'double', 'enum', 'string']] + [('struct', LEAF, True)]
@@ -49,7 +55,7 @@ def fam_map():
     out = []
     for k, kn in zip(KEYS, KEY_NAMES):
         for e, n in zip(ELEMS, ELEM_NAMES):
-            out.append(StructDef('Mp_%s_%s' % (kn, n), [Field(1, 'default', ('map', k, e))]))
+            out.append({'sd': StructDef('Mp_%s_%s' % (kn, n), [Field(1, 'default', ('map', k, e))]), 'kinds': ['codec'], 'params': tparams('codec', S=2, L=2, M=3)})
     return out
 
 def fam_bytes(nmax=8):
